@@ -82,8 +82,62 @@ def words(alpha, maxlen):
     return r
 
 
+def dup_tool_case(order, files, extra_dirs=()):
+    """`pff dup` as a process on replica folders given in `order` (folder names); files: {folder: {rel: bytes}}.
+    Returns (exit status, {rel: bytes} of the output)."""
+    from props import cli_proc
+    d = tempfile.mkdtemp(prefix='pffc06')
+    try:
+        for fo, tree in files.items():
+            os.makedirs(os.path.join(d, fo), exist_ok=True)
+            cli_proc.write_tree(os.path.join(d, fo), tree)
+        rc, out = cli_proc.pff(['dup', '-i'] + list(order) + ['-o', 'out', '-f', '--silent'], d)
+        got = cli_proc.read_tree(os.path.join(d, 'out')) if os.path.isdir(os.path.join(d, 'out')) else {}
+        return rc, got
+    finally:
+        shutil.rmtree(d, ignore_errors=True)
+
+
+def dup_tool_stream(ctx):
+    """The clauses of C06 that only show at the level of the command: the order of the copies is the order GIVEN on the command line
+    (not the alphabetical order of the folder names), and a path held by fewer than three replicas is the first copy with a non-zero
+    status."""
+    base = bytes(range(65, 91)) * 8
+    def mut(i, v):
+        b = bytearray(base); b[i] = v; return bytes(b)
+    scen = [
+        # all three copies differ at offset 100: the value of the FIRST GIVEN copy; folders deliberately not in alphabetical order
+        ('all-differ, order zeta alpha mid', ['zeta', 'alpha', 'mid'], {'zeta': {'f.bin': mut(100, 0x5a)}, 'alpha': {'f.bin': mut(100, 0x41)}, 'mid': {'f.bin': mut(100, 0x4d)}},
+         {'f.bin': mut(100, 0x5a)}, 'nonzero'),
+        # four copies, a 2-2 tie at offset 7
+        ('tie 2-2, order d c b a', ['d', 'c', 'b', 'a'], {'d': {'t': mut(7, 0x78)}, 'c': {'t': mut(7, 0x79)}, 'b': {'t': mut(7, 0x78)}, 'a': {'t': mut(7, 0x79)}},
+         {'t': mut(7, 0x78)}, 'any'),
+        # a path held by exactly two of three replicas, the two copies differ: first copy verbatim, non-zero status
+        ('two copies of three replicas', ['r1', 'r2', 'r3'], {'r1': {'common': base, 'pair': mut(3, 0x31)}, 'r2': {'common': base, 'pair': mut(3, 0x32)}, 'r3': {'common': base}},
+         {'common': base, 'pair': mut(3, 0x31)}, 'nonzero'),
+        # the same with the two copies equal: still "cannot vote"
+        ('two equal copies of three replicas', ['r1', 'r2', 'r3'], {'r1': {'common': base}, 'r2': {'common': base, 'pair': base}, 'r3': {'common': base, 'pair': base}},
+         {'common': base, 'pair': base}, 'nonzero'),
+    ]
+    for name, order, files, want, status in scen:
+        rc, got = dup_tool_case(order, files)
+        ctx.evaluations += 1
+        ctx.count('dup_tool_scenarios')
+        ctx.nontriv(('dup-tool', name))
+        bad = {}
+        if got != want:
+            bad['output'] = {k: (got.get(k) or b'')[:120].hex() for k in want if got.get(k) != want[k]}
+        if status == 'nonzero' and rc == 0:
+            bad['exit'] = rc
+        if bad:
+            ctx.fail({'kind': 'dup-tool', 'scenario': name}, dict(bad, expected_status=status))
+        else:
+            ctx.traces += 1
+
+
 def run(ctx):
     rng = ctx.rng
+    dup_tool_stream(ctx)
     # corpus: minimised earlier failures
     corpus = [(4, [b'', b'', b'abcdefghijkl']), (4, [b'abcd', b'abcdefgh', b'abcdefghijklmnopqrstuvwxyz']),
               (1, [b'a', b'b', b'c']), (3, [b'ab', b'ab', b'']), (2, [b'', b'', b''])]
@@ -131,6 +185,12 @@ def run(ctx):
 
 
 def replay_case(ctx, case):
+    if isinstance(case, dict) and case.get('kind') == 'dup-tool':
+        sub = type('X', (), {'evaluations': 0, 'traces': 0, 'fails': [], 'count': lambda self, *a: None, 'nontriv': lambda self, *a: None,
+                             'fail': lambda self, c, det: self.fails.append((c, det))})()
+        dup_tool_stream(sub)
+        f = [det for c, det in sub.fails if c.get('scenario') == case.get('scenario')]
+        return {'holds': not f, 'implementation': f[:1]}
     bs, cs = case['bs'], [bytes.fromhex(c) for c in case['copies']]
     try:
         impl = impl_vote(bs, cs)
@@ -143,6 +203,8 @@ def replay_case(ctx, case):
 
 
 def shrink(ctx, case):
+    if isinstance(case, dict) and case.get('kind') == 'dup-tool':
+        return case
     def bad(c):
         try:
             return impl_vote(c['bs'], [bytes.fromhex(x) for x in c['copies']]) != spec([bytes.fromhex(x) for x in c['copies']])
